@@ -449,7 +449,7 @@ pub fn run(ctx: &Ctx, replay: Option<&serde_json::Value>) {
     ctx.set_rule("histories of 1-7 steps over {append, append_third_party, seal, reload, switch_api} executed through the API the state is in (Biscuit or UnverifiedBiscuit), contents drawn from a small vocabulary so that strings, default symbols and public keys are shared across blocks, third-party blocks declaring their own strings and keys; after EVERY step the in-memory object is compared with its reload (block sources, symbols, keys, accessors, bytes, authorization under 2-4 authorizers incl. one trusting every key), with the author's AST (parse of the printed source) and with RefAuthz; plus 7 crafted redeclaring tokens; non-trivial = a third-party block using a key scope, or a reload / API switch strictly inside the history; distinct = hash(case)");
     ctx.assume("block-level scopes are not printed (open C14 finding): author fidelity compares facts, rules and checks");
     crafted_cases(ctx);
-    let cases = ctx.tier.pick(4000, 320_000);
+    let cases = ctx.tier.pick(16_000, 320_000);
     let cfg = cfg();
     ctx.run_prop(
         "histories",
